@@ -14,6 +14,7 @@ import (
 
 	"github.com/synnaxlabs/freighter"
 	"github.com/synnaxlabs/freighter/freightfluence"
+	"github.com/synnaxlabs/synnax/pkg/distribution/framer/frame"
 	"github.com/synnaxlabs/synnax/pkg/distribution/node"
 	"github.com/synnaxlabs/synnax/pkg/distribution/proxy"
 	"github.com/synnaxlabs/x/address"
@@ -24,14 +25,19 @@ import (
 type peerSwitchSender struct {
 	freightfluence.BatchSwitchSender[Request, Request]
 	addresses proxy.AddressMap
-	logger    *zap.Logger
+	// sync is true when every peer acknowledges every write. The synchronizer then
+	// waits for one response per leaseholder, so a write must reach every peer, even
+	// the ones the frame carries no series for.
+	sync   bool
+	logger *zap.Logger
 }
 
 func newRequestSwitchSender(
 	addresses proxy.AddressMap,
 	senders map[address.Address]freighter.StreamSenderCloser[Request],
+	sync bool,
 ) confluence.Sink[Request] {
-	rs := &peerSwitchSender{addresses: addresses}
+	rs := &peerSwitchSender{addresses: addresses, sync: sync}
 	rs.Senders = freightfluence.MapTargetedSender[Request](senders)
 	rs.Switch = rs._switch
 	return rs
@@ -43,13 +49,22 @@ func (rs *peerSwitchSender) _switch(
 	oReqs map[address.Address]Request,
 ) error {
 	if r.Command == CommandWrite {
-		for nodeKey, frame := range r.Frame.SplitByLeaseholder() {
+		frames := r.Frame.SplitByLeaseholder()
+		for nodeKey, frame := range frames {
 			addr, ok := rs.addresses[nodeKey]
 			if !ok {
 				rs.logger.DPanic("missing address for node", zap.Uint32("node", uint32(nodeKey)))
 			}
 			r.Frame = frame
 			oReqs[addr] = r
+		}
+		if rs.sync {
+			for nodeKey, addr := range rs.addresses {
+				if _, ok := frames[nodeKey]; !ok {
+					r.Frame = frame.Frame{}
+					oReqs[addr] = r
+				}
+			}
 		}
 	} else {
 		for _, addr := range rs.addresses {
